@@ -1010,3 +1010,357 @@ def exec_concurrent(case):
         return finish(g, viol, probes, case, ("C12",))
     finally:
         g.close()
+
+
+# ------------------------------------------------------------------------------------------
+# profile: serial (C13 one client serializes operations on a mutable node)
+# ------------------------------------------------------------------------------------------
+def gen_serial(seed, tier, focus="C13"):
+    ch = Chooser(seed)
+    cfg = gen_common(ch, tier)
+    cfg["fmt"] = ch.pick("config", "fmt", ["SDMF", "MDMF"])
+    W = "workload"
+    sz = sizes_for(cfg)
+    ops = [["create", ch.pick(W, "csize", sz[1:]), ch.randint(W, "cpat", 1, 1 << 30)]]
+    for i in range(ch.randint(W, "nops", 2, 4)):
+        ops.append(["op", ch.pick(W, ("kind", i), ["download", "overwrite", "modify", "servermap", "modify", "upload"]),
+                    ch.pick(W, ("size", i), sz[1:8]), ch.randint(W, ("pat", i), 1, 1 << 30),
+                    ch.chance(W, ("samecapstr", i), 0.5), ch.chance(W, ("fail", i), 0.2)])
+    faults = []
+    for j in range(ch.weighted("faults", "nf", [(0, 3), (1, 2), (2, 1)])):
+        faults.append([ch.pick("faults", ("kind", j), ["error", "stall", "disconnect_before"]), ch.randrange("faults", ("srv", j), cfg["nservers"]),
+                       ch.pick("faults", ("meth", j), ["slot_testv_and_readv_and_writev", "slot_readv"]), ch.randint("faults", ("nth", j), 2, 8), 5.0])
+    return {"engine": "mutsim", "profile": "serial", "focus": "C13", "seed": seed, "cfg": cfg, "ops": ops, "faults": faults}
+
+
+def exec_serial(case):
+    from sim.runner import child_tmp
+    from allmydata.mutable import filenode as fn_mod
+    cfg = case["cfg"]
+    base = tempfile.mkdtemp(dir=child_tmp())
+    viol, probes = [], {}
+
+    def probe(nm, c=1):
+        probes[nm] = probes.get(nm, 0) + c
+
+    def bad(clause, detail, sig=None):
+        viol.append({"clause": "C13.%s" % clause, "sig": sig or "C13.%s" % clause, "detail": detail})
+
+    g = build_grid(case, base)
+    intervals = []      # [node id, name, start event, end event or None, request index]
+    originals = {}
+    # the seam: every whole-file operation goes through MutableFileNode._do_serialized(cb, ...); record when the
+    # real code actually invokes cb and when cb's Deferred fires (nested helper calls inside cb are not operations)
+    orig_ds = fn_mod.MutableFileNode._do_serialized
+    originals["_do_serialized"] = orig_ds
+    reqno = [0]
+
+    def ds_wrapper(self, cb, *a, **kw):
+        reqno[0] += 1
+        req = reqno[0]
+
+        def cb2(*a2, **kw2):
+            rec = [id(self), getattr(cb, "__name__", "?"), R.events, None, req]
+            intervals.append(rec)
+            d = defer.maybeDeferred(cb, *a2, **kw2)
+
+            def fin(res, rec=rec):
+                rec[3] = R.events
+                return res
+            d.addBoth(fin)
+            return d
+        return orig_ds(self, cb2, *a, **kw)
+    fn_mod.MutableFileNode._do_serialized = ds_wrapper
+    try:
+        k, n = cfg["k"], cfg["n"]
+        c = g.add_client(k=k, happy=1, n=n, fmt=cfg["fmt"])
+        ver = MDMF_VERSION if cfg["fmt"] == "MDMF" else SDMF_VERSION
+        creates = [op for op in case["ops"] if op[0] == "create"]
+        op0 = creates[0] if creates else ["create", 10, 1]
+        data0 = b"base:" + pat_bytes(op0[2], op0[1])
+        st, node = run(c.create_mutable_file(MutableData(data0), version=ver))
+        if st != "ok":
+            return finish(g, viol, probes, case, ("C13",))
+        settle(200_000)
+        del intervals[:]
+        cap = node.get_uri()
+        # the property speaks of nodes obtained through the same capability string: use such a node from here on
+        # (the object returned by create_mutable_file is not entered into the node cache)
+        node = c.create_node_from_uri(cap)
+        for fl in case.get("faults", []):
+            kind, srv, meth, nth, secs = fl
+            if srv < len(g.servers):
+                g.net.add_fault({"kind": kind, "callee": g.servers[srv].name, "caller": c.sim_name, "method": meth, "nth": nth, "secs": secs})
+        results = []
+        requested = []
+        tokens = []
+        for i, op in enumerate([o for o in case["ops"] if o[0] == "op"]):
+            _, kind, size, pat, samecap, fail = op
+            nd = c.create_node_from_uri(cap if samecap else bytes(bytearray(cap)))     # equal string, maybe a distinct object
+            if nd is not node:
+                bad("different-node-object", "create_node_from_uri returned a different node object for the same capability string")
+            data = pat_bytes(pat, size)
+            if kind == "download":
+                d = nd.download_best_version()
+            elif kind == "overwrite":
+                d = nd.overwrite(MutableData(data))
+            elif kind == "upload":
+                # needs a servermap: request one through the node first (also serialized)
+                d = nd.get_servermap(MODE_WRITE)
+                d.addCallback(lambda sm, nd=nd, data=data: nd.upload(MutableData(data), sm))
+            elif kind == "servermap":
+                d = nd.get_servermap(MODE_READ)
+            else:
+                token = b"|T%d" % i
+                tokens.append((i, token))
+
+                def modifier(old, servermap, first_time, token=token, fail=fail):
+                    if fail:
+                        raise ValueError("modifier fails on purpose")
+                    return old if token in old else old + token
+                d = nd.modify(modifier)
+            requested.append((i, kind))
+            box = {}
+            d.addCallbacks(lambda r, box=box: box.setdefault("r", ("ok", r)), lambda f, box=box: box.setdefault("r", ("err", f)))
+            results.append((i, kind, fail, box))
+        try:
+            settle(400_000)
+        except EventCap:
+            bad("livelock", "operations never quiesce")
+            return finish(g, viol, probes, case, ("C13",))
+        for (i, kind, fail, box) in results:
+            if "r" not in box:
+                bad("op-hung", "operation %d (%s) never completed; a failed earlier operation must not block later ones (faults=%r)" % (i, kind, case.get("faults")),
+                    sig="C13.op-hung")
+            else:
+                probe("op-" + box["r"][0])
+        # intervals of one node never overlap, and they start in request order
+        mine = [r for r in intervals if r[0] == id(node)]
+        for a, b in zip(mine, mine[1:]):
+            if a[3] is None or b[2] < a[3]:
+                bad("overlap", "serialized operations overlap: %s [%s..%s] and %s [%s..%s]" % (a[1], a[2], a[3], b[1], b[2], b[3]))
+                break
+            if b[4] < a[4]:
+                bad("order", "operation requested as #%d started before the one requested as #%d" % (b[4], a[4]))
+                break
+        probe("serialized-intervals", len(mine))
+        # no lost update among successful modifies that followed no overwrite/upload
+        st, final = run(c.create_node_from_uri(cap).download_best_version(), 300_000)
+        if st == "ok":
+            # (a failed overwrite may still have replaced the contents, so every *requested* replacement counts)
+            last_replace = max([i for (i, kind, fail, box) in results if kind in ("overwrite", "upload")] + [-1])
+            for (i, token) in tokens:
+                box = [b for (j, kd, fl, b) in results if j == i][0]
+                if box.get("r", ("?",))[0] == "ok" and i > last_replace and token not in final:
+                    bad("lost-update", "modify #%d reported success and no later overwrite was requested, yet its change is missing from the final contents" % i)
+        return finish(g, viol, probes, case, ("C13",))
+    finally:
+        for nm, orig in originals.items():
+            setattr(fn_mod.MutableFileNode, nm, orig)
+        g.close()
+
+
+# ------------------------------------------------------------------------------------------
+# profile: repair (C14 mutable check and repair preserve the newest content)
+# ------------------------------------------------------------------------------------------
+def gen_repair(seed, tier, focus="C14"):
+    ch = Chooser(seed)
+    cfg = gen_common(ch, tier)
+    cfg["fmt"] = ch.pick("config", "fmt", ["SDMF", "MDMF"])
+    cfg["nservers"] = max(cfg["nservers"], cfg["n"])       # room for N distinct shares, one per server
+    W = "workload"
+    sz = sizes_for(cfg)
+    nver = ch.randint(W, "nver", 1, 3)
+    cfg["versions"] = [[ch.pick(W, ("size", v), sz[1:10]), ch.randint(W, ("pat", v), 1, 1 << 30)] for v in range(nver)]
+    cfg["competing"] = ch.chance(W, "competing", 0.35)      # a second writer publishes the same seqnum as the last version
+    layout = []
+    for sh in range(cfg["n"]):
+        fate = ch.weighted("faults", ("fate", sh), [("newest", 6), ("missing", 1.5), ("older", 1.5), ("competing", 1.5 if cfg["competing"] else 0),
+                                                    ("data-flip", 1.0)])
+        layout.append([sh, fate, ch.randrange("faults", ("oldv", sh), 8), ch.randrange("faults", ("p1", sh), 1 << 30)])
+    cfg["layout"] = layout
+    ops = [["check", ch.chance(W, "verify", 0.5)], ["repair", ch.chance(W, "force", 0.4)]]
+    return {"engine": "mutsim", "profile": "repair", "focus": "C14", "seed": seed, "cfg": cfg, "ops": ops, "faults": []}
+
+
+def exec_repair(case):
+    from sim.runner import child_tmp
+    from allmydata.monitor import Monitor
+    from allmydata.mutable.repairer import MustForceRepairError
+    cfg = case["cfg"]
+    base = tempfile.mkdtemp(dir=child_tmp())
+    viol, probes = [], {}
+
+    def probe(nm, c=1):
+        probes[nm] = probes.get(nm, 0) + c
+
+    def bad(clause, detail, sig=None):
+        viol.append({"clause": "C14.%s" % clause, "sig": sig or "C14.%s" % clause, "detail": detail})
+
+    g = build_grid(case, base)
+    try:
+        k, n = cfg["k"], cfg["n"]
+        w = g.add_client(k=k, happy=1, n=n, fmt=cfg["fmt"])
+        ver = MDMF_VERSION if cfg["fmt"] == "MDMF" else SDMF_VERSION
+        published = {}
+        images = []          # per version: {shnum: raw container} (content of a share number does not depend on the server)
+        node = cap = si = None
+        for vi, (size, pat) in enumerate(cfg["versions"]):
+            data = pat_bytes(pat, size) + b"|v%d" % vi
+            if node is None:
+                st, res = run(w.create_mutable_file(MutableData(data), version=ver))
+                if st == "ok":
+                    node, cap = res, res.get_uri()
+                    si = si_of_cap(cap)
+            else:
+                st, res = run(node.overwrite(MutableData(data)))
+            settle(300_000)
+            if st != "ok":
+                return finish(g, viol, probes, case, ("C14",))
+            state = {(s.name, shnum): raw for s in g.servers for shnum, raw in s.shares_of(si).items()}
+            vers = versions_on_disk({kx: parse_mutable_container(v) for kx, v in state.items()})
+            newest = max(vers, key=lambda v: v[1])
+            published[newest] = data
+            images.append((newest, {sh: raw for (nm, sh), raw in state.items() if share_version(parse_mutable_container(raw)) == newest}))
+        where = {sh: nm for (nm, sh) in state}          # server that holds each share number after the last publish
+        newest_v, newest_img = images[-1]
+        competing_v = competing_img = None
+        if cfg["competing"] and len(images) >= 1:
+            # second writer: restore the disks to the state before the last publish, publish other contents, harvest, restore
+            prev_state = dict(state)
+            if len(images) >= 2:
+                for (nm, sh), raw in list(state.items()):
+                    old = images[-2][1].get(sh)
+                    p = g.server_by_name(nm).share_path(si, sh)
+                    if old is not None:
+                        with open(p, "wb") as f:
+                            f.write(old)
+                w2 = g.add_client(k=k, happy=1, n=n, fmt=cfg["fmt"])
+                data2 = b"competing contents " + pat_bytes(777, 40)
+                st2, r2 = run(w2.create_node_from_uri(cap).overwrite(MutableData(data2)))
+                settle(300_000)
+                if st2 == "ok":
+                    st_ = {(s.name, shnum): raw for s in g.servers for shnum, raw in s.shares_of(si).items()}
+                    vv = versions_on_disk({kx: parse_mutable_container(v) for kx, v in st_.items()})
+                    cv = max(vv, key=lambda v: v[1])
+                    if cv[1] == newest_v[1] and cv != newest_v:
+                        competing_v = cv
+                        competing_img = {sh: raw for (nm, sh), raw in st_.items() if share_version(parse_mutable_container(raw)) == cv}
+                        published[cv] = data2
+                        probe("competing-version-built")
+                for (nm, sh), raw in prev_state.items():
+                    with open(g.server_by_name(nm).share_path(si, sh), "wb") as f:
+                        f.write(raw)
+        # ---- lay out the shares
+        for (sh, fate, oldv, p1) in cfg["layout"]:
+            nm = where.get(sh)
+            if nm is None:
+                continue
+            p = g.server_by_name(nm).share_path(si, sh)
+            if fate == "missing":
+                os.unlink(p)
+            elif fate == "older" and len(images) >= 2:
+                old = images[oldv % (len(images) - 1)][1].get(sh)
+                if old is not None:
+                    with open(p, "wb") as f:
+                        f.write(old)
+            elif fate == "competing" and competing_img and sh in competing_img:
+                with open(p, "wb") as f:
+                    f.write(competing_img[sh])
+            elif fate == "data-flip":
+                with open(p, "rb") as f:
+                    raw = f.read()
+                new = mutate_mut_share(raw, "data", p1, 1, {})
+                with open(p, "wb") as f:
+                    f.write(new)
+            probe("fate-" + fate)
+        # ---- ground truth
+        img_by_v = {v: {sh: parse_mutable_container(raw) for sh, raw in img.items()} for v, img in images}
+        if competing_v:
+            img_by_v[competing_v] = {sh: parse_mutable_container(raw) for sh, raw in competing_img.items()}
+        before = {(s.name, shnum): raw for s in g.servers for shnum, raw in s.shares_of(si).items()}
+
+        def truth(verify):
+            present = {}    # version -> set(shnum) counted as good by this kind of check
+            for (nm, sh), raw in before.items():
+                d = parse_mutable_container(raw)
+                v = share_version(d)
+                if v is None:
+                    continue
+                if verify and d != img_by_v.get(v, {}).get(sh):
+                    continue
+                present.setdefault(v, set()).add(sh)
+            return present
+        for op in case["ops"]:
+            if op[0] == "check":
+                verify = op[1]
+                t = truth(verify)
+                allv = truth(False)
+                ck = g.add_client(k=k, happy=1, n=n)
+                stc, cr = run(ck.create_node_from_uri(cap).check(Monitor(), verify=verify), 300_000)
+                if stc != "ok":
+                    bad("check-failed", "check(verify=%s): %s" % (verify, err_name(cr) if stc == "err" else stc), sig="C14.check-failed." + (err_site(cr) if stc == "err" else stc))
+                    continue
+                rec = [v for v, shs in t.items() if len(shs) >= k]
+                corrupt_present = verify and any(d != img_by_v.get(share_version(d), {}).get(sh) for (nm, sh), d in
+                                                 ((kx, parse_mutable_container(raw)) for kx, raw in before.items()) if share_version(d) is not None)
+                want_healthy = (len(rec) == 1 and len(t[rec[0]]) >= n and len(allv) == 1 and not corrupt_present)
+                probe("check-%s-%s" % ("verify" if verify else "noverify", "healthy" if want_healthy else "unhealthy"))
+                if cr.is_healthy() != want_healthy:
+                    bad("healthy", "check(verify=%s).is_healthy()=%s; ground truth: versions %r (recoverable: %d), N=%d k=%d, layout=%r" % (
+                        verify, cr.is_healthy(), {("seq%d" % v[1]): sorted(s_) for v, s_ in t.items()}, len(rec), n, k, cfg["layout"]))
+            else:
+                force = op[1]
+                t = truth(False)       # repair works from a servermap (prefix-level knowledge)
+                rec = [v for v, shs in t.items() if len(shs) >= k]
+                best_seq = max([v[1] for v in rec] or [-1])
+                unrec_newer = any(v[1] > best_seq and len(shs) < k for v, shs in t.items()) and bool(rec)
+                needs_merge = len([v for v in rec if v[1] == best_seq]) > 1
+                stc, cr = run(node.check(Monitor(), verify=False), 300_000)
+                if stc != "ok":
+                    continue
+                str_, rr = run(node.repair(cr, force=force), 400_000)
+                settle(300_000)
+                after = {(s.name, shnum): raw for s in g.servers for shnum, raw in s.shares_of(si).items()}
+                must_force = unrec_newer or needs_merge
+                if str_ == "err" and rr.check(MustForceRepairError):
+                    probe("must-force-raised")
+                    if not must_force:
+                        bad("spurious-must-force", "repair(force=%s) raised MustForceRepairError but there is neither an unrecoverable newer version nor two recoverable versions with the same seqnum" % force)
+                    if after != before:
+                        bad("refused-repair-changed-shares", "repair refused with MustForceRepairError but share files changed")
+                    continue
+                if must_force and not force:
+                    bad("repair-without-force", "repair(force=False) went ahead (%s) although %s" % (
+                        str_, "an unrecoverable newer version exists" if unrec_newer else "two recoverable versions share the highest seqnum"))
+                    continue
+                t_intact = truth(True)
+                best_candidates = [v for v in rec if v[1] == best_seq]
+                best_intact_ok = bool(best_candidates) and len(t_intact.get(max(best_candidates, key=lambda v: v[2]), ())) >= k
+                if str_ == "ok" and rr.get_successful():
+                    probe("repair-ok")
+                    best = max([v for v in rec if v[1] == best_seq], key=lambda v: v[2])
+                    rd = g.add_client(k=k, happy=1, n=n)
+                    st3, got = run(rd.create_node_from_uri(cap).download_best_version(), 300_000)
+                    if st3 != "ok":
+                        bad("unreadable-after-repair", "read after a successful repair: %s" % (err_name(got) if st3 == "err" else st3))
+                    elif not needs_merge and got != published.get(best):
+                        bad("contents-changed", "repair changed the contents: expected the pre-repair best version (seq %d)" % best[1])
+                    elif needs_merge and got not in [published[v] for v in rec if v[1] == best_seq]:
+                        bad("contents-changed", "forced repair produced contents that are none of the competing versions")
+                    va = versions_on_disk({kx: parse_mutable_container(v) for kx, v in after.items()})
+                    top = max(va, key=lambda v: v[1])
+                    if len(va[top]) < n and len(g.servers) >= n:
+                        bad("not-n-shares", "successful repair left only %d distinct shares of the newest version (N=%d)" % (len(va[top]), n))
+                elif str_ == "ok":
+                    probe("repair-unsuccessful")
+                    if rec and best_intact_ok:
+                        bad("repair-unsuccessful", "repair reported failure although the best version has k intact shares")
+                elif str_ == "err":
+                    probe("repair-err-" + err_name(rr))
+                    if rec and best_intact_ok and not case.get("faults"):
+                        bad("repair-failed", "repair failed with %s although the best version has k intact shares: %s" % (err_name(rr), rr.getTraceback()[-600:]),
+                            sig="C14.repair-failed." + err_site(rr))
+        return finish(g, viol, probes, case, ("C14",))
+    finally:
+        g.close()
